@@ -8,6 +8,8 @@ module Z :
 
   val compare : coq_Z -> coq_Z -> comparison
 
+  val leb : coq_Z -> coq_Z -> bool
+
   val ltb : coq_Z -> coq_Z -> bool
 
   val abs : coq_Z -> coq_Z
@@ -15,4 +17,6 @@ module Z :
   val to_nat : coq_Z -> nat
 
   val of_nat : nat -> coq_Z
+
+  val of_N : coq_N -> coq_Z
  end
